@@ -1,0 +1,1 @@
+//! Hooks for property C34 (empty unless needed).
